@@ -281,12 +281,6 @@ catalogue! {
     model = |x| *x >= -200 && *x <= -100;
     class = |s| class_num_str(s, Some(-200.0), Some(-100.0));
 
-    #[nutype(sanitize(with = |x: i32| x.clamp(0, 100)), validate(less_or_equal = 100), derive(Debug, Arbitrary))]
-    struct I32ClampThenLe(i32);
-    family = "integer";
-    model = |x| *x >= 0 && *x <= 100;
-    class = |s| class_num_str(s, Some(0.0), Some(100.0));
-
     #[nutype(sanitize(with = |x: i32| x.wrapping_abs()), derive(Debug, Arbitrary))]
     struct I32AbsFree(i32);
     family = "integer";
@@ -670,7 +664,7 @@ catalogue! {
     #[nutype(sanitize(trim, lowercase), derive(Debug, Arbitrary))]
     struct SFreeSanitized(String);
     family = "string";
-    model = |_s| true;
+    model = |s| *s == s.trim().to_lowercase();
     class = |s| str_class(s, None, None);
 
     #[nutype(validate(not_empty), derive(Debug, Arbitrary))]
@@ -914,8 +908,30 @@ mod questionable {
     #[nutype(sanitize(with = |x: i32| x.wrapping_abs()), validate(less_or_equal = 100), derive(Debug, Arbitrary))]
     pub struct I32AbsThenLe(i32);
 
+    /// Works today (the sanitizer keeps generated values inside the valid range), but relies on the
+    /// same acceptance of `with` sanitizer + validators + Arbitrary for integers.
+    #[nutype(sanitize(with = |x: i32| x.clamp(0, 100)), validate(less_or_equal = 100), derive(Debug, Arbitrary))]
+    pub struct I32ClampThenLe(i32);
+
     pub fn registry_questionable() -> Vec<ArbDecl> {
         vec![ArbDecl {
+            name: "I32ClampThenLe",
+            family: "integer",
+            text: "sanitize(with = |x: i32| x.clamp(0, 100)), validate(less_or_equal = 100), derive(Debug, Arbitrary)",
+            run: |bytes: &[u8]| {
+                let mut u = Unstructured::new(bytes);
+                match <I32ClampThenLe as Arbitrary>::arbitrary(&mut u) {
+                    Ok(v) => {
+                        let consumed = bytes.len() - u.len();
+                        let inner: i32 = v.into_inner();
+                        let repr = format!("{:?}", inner);
+                        ArbOutcome::Value { valid: (0..=100).contains(&inner), class: class_num_str(&repr, Some(0.0), Some(100.0)), repr, consumed }
+                    }
+                    Err(e) => ArbOutcome::ArbError(format!("{e:?}")),
+                }
+            },
+            classify: |s| class_num_str(s, Some(0.0), Some(100.0)),
+        }, ArbDecl {
             name: "I32AbsThenLe",
             family: "integer",
             text: "sanitize(with = |x: i32| x.wrapping_abs()), validate(less_or_equal = 100), derive(Debug, Arbitrary)",
